@@ -76,6 +76,8 @@ func execMethodFunction(vm *r.VM, root r.Element, funcName *r.IDName, params []r
 	elem, err := root.ExecMethod(funcName.GetLiteral(), params)
 	if err == nil {
 		vm.PopCallFrame()
+	} else {
+		vm.PopCallFrameOnError(err)
 	}
 
 	return elem, err
@@ -95,10 +97,13 @@ func execDirectFunction(vm *r.VM, funcName *r.IDName, params []r.Element) (r.Ele
 	// assert value is function type
 	fn, ok := elem.(*value.Function)
 	if !ok {
-		return nil, zerr.InvalidFuncVariable(funcName.GetLiteral())
+		err := zerr.InvalidFuncVariable(funcName.GetLiteral())
+		vm.PopCallFrameOnError(err)
+		return nil, err
 	}
 
 	if elem, err := fn.Exec(nil, params); err != nil {
+		vm.PopCallFrameOnError(err)
 		return nil, err
 	} else {
 		vm.PopCallFrame()
